@@ -13,11 +13,16 @@ TECHNIQUE = "static analysis: reaching definitions + guard for the zero-scale fa
 EXPLANATION = (
     "Narrow claim - structural clauses only: (R1) every definition of the scale that reaches the division in estimate_zscore "
     "is either the np.where(zero_scales, 1, scale) replacement or reaches it only when no scale is (close to) zero, so "
-    "z-scores of finite data are finite; (R2) every name in the ScaleMethods / LocMethods literals has an implementation "
+    "z-scores of finite data are finite, and estimate_zscore as a whole equals its definition (location from loc_method, scale "
+    "from scale_method, 'norm' = 0 / 1, the guarded division, the three reported arrays); (R2) every name in the ScaleMethods / LocMethods literals has an implementation "
     "and unknown names raise ValueError; (R3) each axis-generic scale estimator either delegates to "
     "apply_along_axes(<1-D estimator>, data, axis) - which flattens for axis=None and iterates lanes otherwise - or forms its "
-    "lanes only through axis=-parameterised reductions; it never indexes the input positionally to form lanes, so computing "
-    "along an axis equals applying the 1-D estimator per lane; (R4) the keepdims path re-expands exactly the reduced axes. "
+    "lanes only through axis=-parameterised reductions; it never indexes the input positionally to form lanes, and no 1-D "
+    "estimator returns an integer on some path (np.apply_along_axis sizes its buffer from the first lane), so computing "
+    "along an axis equals applying the 1-D estimator per lane; (R4) the keepdims path re-expands exactly the reduced axes; "
+    "(R5) the double-MAD estimator is mirror-symmetric: every left-side quantity has a right-side twin that is its mirror image, "
+    "samples below / above the median take their own side's MAD and a sample on the median takes a value that is invariant "
+    "under swapping the sides - a necessary condition of sign-equivariance for a < 0. "
     "Not decided: affine equivariance and finiteness of the individual estimators' arithmetic - numeric clauses."
 )
 S = "sigpyproc.core.stats"
@@ -93,6 +98,13 @@ def run(prog: Program, res: Result, tier: str) -> None:
             res.ok("R1", ez, dv, "zero (or tiny) scales are replaced by 1 before the division; other paths have no zero scale", key=key)
         else:
             res.bad("R1", ez, dv, why or "the scale reaches the division without a zero-scale fallback: constant lanes give inf/NaN z-scores", key=key)
+    # the function as a whole equals its definition: loc from loc_method, scale from scale_method ("norm" = 0 / 1), the
+    # guarded division, the three reported arrays
+    from .. import kernelspec as _ks
+    verdict_z, why_z = _ks.compare(ez)
+    if verdict_z == "incomparable":
+        raise AnalysisError(f"estimate_zscore cannot be compared with its reference definition: {why_z[0]}")
+    (res.ok if verdict_z == "same" else res.bad)("R1", ez, ez.node, ("; ".join(why_z))[:700], construct="estimate_zscore", key="zscore:definition")
     from ..normalform import canon
     # z = (data - loc) / scale in place, and what is reported is what was used
     okf = False
@@ -230,7 +242,7 @@ def run(prog: Program, res: Result, tier: str) -> None:
     ok = ok and seen_none and seen_axis and len(calls_impl) == 1
     (res.ok if ok else res.bad)("R4", es, es.node, "keepdims re-inserts exactly the reduced axes (all axes for axis=None)" if ok else
                                 "estimate_scale: keepdims does not re-expand the axes that were reduced", construct="keepdims", key="scale:keepdims")
-    res.floor("R1", 2)
+    res.floor("R1", 3)
     res.floor("R2", 2)
     res.floor("R3", 9)
     res.floor("R4", 2)
@@ -239,7 +251,7 @@ def run(prog: Program, res: Result, tier: str) -> None:
 
 def check_doublemad_symmetry(prog: Program, res: Result, rule: str) -> None:
     """In _scale_doublemad every statement defining a *_left quantity must have a *_right twin that is its mirror image
-    (left <-> right, <= <-> >=); the final select is where(data < loc, left, right).  Shared with C16 (method 'mad')."""
+    (left <-> right, <= <-> >=); the final select gives each side its own MAD and a sample on the median a value symmetric in the sides.  Shared with C16 (method 'mad')."""
     f = prog.func(S, "_scale_doublemad")
     defs: dict[str, list[str]] = {}
     for st in body_walk(f.node):
@@ -263,10 +275,134 @@ def check_doublemad_symmetry(prog: Program, res: Result, rule: str) -> None:
                     f"double MAD is computed from the other side's deviations", construct=k, key=key)
         else:
             res.ok(rule, f, f.node, f"`{kr}` mirrors `{k}` ({len(defs[k])} definition(s))", construct=k, key=key)
+    # the final selection, as a map from the three regions (below / on / above the median) to a value
     rets = [s for s in body_walk(f.node) if isinstance(s, ast.Return)]
-    ok = len(rets) == 1 and norm(rets[0].value) == "np.where(data < loc, mad_left, mad_right)"
-    (res.ok if ok else res.bad)(rule, f, rets[0] if rets else f.node, "each sample is scaled by the MAD of its own side of the median" if ok else
-                                "the final selection is not where(data < loc, mad_left, mad_right)", key="doublemad:select", construct="select")
+    flow = flow_of(f)
+    from ..poly import PolyEnv
+
+    def decide(c: ast.AST, region: str) -> bool | None:
+        if not (isinstance(c, ast.Compare) and len(c.ops) == 1):
+            return None
+        a, b, op = norm(c.left), norm(c.comparators[0]), type(c.ops[0])
+        if (a, b) == ("loc", "data"):
+            a, b, op = b, a, {ast.Lt: ast.Gt, ast.Gt: ast.Lt, ast.LtE: ast.GtE, ast.GtE: ast.LtE}.get(op, op)
+        if (a, b) != ("data", "loc"):
+            return None
+        table = {ast.Lt: "<", ast.LtE: "<=", ast.Gt: ">", ast.GtE: ">=", ast.Eq: "=", ast.NotEq: "<>"}
+        return region in table[op] if op in table else None
+
+    def select(e: ast.AST, region: str, depth: int = 0) -> ast.AST | None:
+        if isinstance(e, ast.Name) and depth < 6:
+            ds = [d for d in flow.reaching(e.id, flow.cfg.node_for(rets[0])) if d.kind == "assign"]
+            if len(ds) == 1 and isinstance(ds[0].value, ast.Call) and dotted(ds[0].value.func) == "np.where" and ("left" not in e.id and "right" not in e.id):
+                return select(ds[0].value, region, depth + 1)
+        if isinstance(e, ast.Call) and dotted(e.func) == "np.where" and len(e.args) == 3:
+            t = decide(e.args[0], region)
+            return None if t is None else select(e.args[1] if t else e.args[2], region, depth + 1)
+        return e
+
+    def swap(e: ast.AST) -> ast.AST:
+        e = ast.parse(norm(e), mode="eval").body
+        for n in ast.walk(e):
+            if isinstance(n, ast.Name):
+                n.id = mirror(n.id)
+        return e
+
+    def value(e: ast.AST):
+        # one level of local definitions (`mad_both = 0.5 * (mad_left + mad_right)`), the sides themselves stay symbolic
+        ex = flow.expand(e, flow.cfg.node_for(rets[0]), stop={k for k in defs if "left" in k or "right" in k})
+        return PolyEnv().poly(ex)
+    why = ""
+    if len(rets) != 1 or rets[0].value is None:
+        why = "no single result"
+    else:
+        lt, eq, gt = (select(rets[0].value, r) for r in "<=>")
+        if lt is None or eq is None or gt is None:
+            why = "the final selection is not a choice by the side of the median (data < loc / data > loc)"
+        elif not (isinstance(lt, ast.Name) and "left" in lt.id and lt.id in defs):
+            why = f"samples below the median are not scaled by the left-side MAD (`{norm(lt)}`)"
+        elif norm(gt) != mirror(norm(lt)):
+            why = f"samples above the median are scaled by `{norm(gt)}`, expected the mirror image `{mirror(norm(lt))}`"
+        elif not (value(eq) - value(swap(eq))).is_zero():
+            why = (f"a sample equal to the median is scaled by `{norm(eq)}`, which belongs to one side: negating the data swaps the sides, so "
+                   f"scale(-x) differs from scale(x) (and z(-x) from -z(x)) at that sample")
+    (res.ok if not why else res.bad)(rule, f, rets[0] if rets else f.node, "each sample is scaled by the MAD of its own side of the median; a sample on the "
+                                     "median by a value that is symmetric in the two sides" if not why else why, key="doublemad:select", construct="select")
+
+
+_FLOAT_FUNCS = {"np.mean", "np.median", "np.std", "np.var", "np.sqrt", "np.nanmean", "np.nanmedian", "np.nanstd", "np.percentile", "np.quantile",
+                "np.nanpercentile", "float", "np.float64", "np.float32", "np.average", "np.true_divide", "np.divide"}
+_INT_FUNCS = {"len", "int", "bool", "np.count_nonzero", "np.argmax", "np.argmin", "np.searchsorted", "round"}
+_SAME_KIND_FUNCS = {"np.abs", "np.absolute", "np.partition", "np.sort", "np.max", "np.min", "np.sum", "np.ravel", "np.diff", "np.asarray", "np.asanyarray",
+                    "np.nanmax", "np.nanmin", "np.nansum", "np.subtract", "np.add", "np.multiply", "np.where", "abs", "max", "min", "sum", "sorted"}
+_SAME_KIND_METHODS = {"min", "max", "sum", "ravel", "flatten", "copy", "cumsum", "take", "squeeze", "item"}
+
+
+def _result_kind(flow, e: ast.AST, at: int, float_names: set[str], depth: int = 0) -> str | None:
+    """'float' / 'int' when the numeric kind of `e` is evident from the source, else None."""
+    if depth > 12 or e is None:
+        return None
+    rk = lambda x: _result_kind(flow, x, at, float_names, depth + 1)  # noqa: E731
+    if isinstance(e, ast.Constant):
+        return "float" if isinstance(e.value, float) else "int" if isinstance(e.value, (bool, int)) else None
+    if isinstance(e, ast.Compare) or (isinstance(e, ast.UnaryOp) and isinstance(e.op, ast.Not)):
+        return "int"
+    if isinstance(e, ast.UnaryOp):
+        return rk(e.operand)
+    if isinstance(e, ast.BinOp):
+        if isinstance(e.op, ast.Div):
+            return "float"
+        a, b = rk(e.left), rk(e.right)
+        if "float" in (a, b):
+            return "float"
+        return "int" if a == b == "int" else None
+    if isinstance(e, ast.IfExp):
+        a, b = rk(e.body), rk(e.orelse)
+        return a if a == b else ("mixed" if a and b else None)
+    if isinstance(e, ast.Subscript):
+        return rk(e.value)
+    if isinstance(e, ast.Name):
+        if e.id in float_names:
+            return "float"
+        ds = [d for d in flow.reaching(e.id, at) if d.kind == "assign" and d.value is not None]
+        if not ds or len(ds) != len(flow.reaching(e.id, at)):
+            return None
+        kinds = {_result_kind(flow, d.value, d.node, float_names, depth + 1) for d in ds}
+        return kinds.pop() if len(kinds) == 1 else None
+    if isinstance(e, ast.Call):
+        d = dotted(e.func)
+        if d in _FLOAT_FUNCS:
+            return "float"
+        if d in _INT_FUNCS:
+            return "int"
+        if d in _SAME_KIND_FUNCS and e.args:
+            ks = [rk(a) for a in (e.args[1:3] if d == "np.where" else e.args[:1])]
+            return "float" if "float" in ks and None not in ks else ks[0] if len(set(ks)) == 1 else None
+        if isinstance(e.func, ast.Attribute) and e.func.attr in _SAME_KIND_METHODS:
+            return rk(e.func.value)
+        if isinstance(e.func, ast.Attribute) and e.func.attr in ("mean", "std", "var"):
+            return "float"
+    return None
+
+
+def _lane_result_kind(prog: Program, res: Result, one_d: FuncInfo, method: str) -> None:
+    """np.apply_along_axis allocates its output with the dtype of the FIRST lane's result: a 1-D estimator that returns an
+    integer on some path (a literal 0 for a constant lane, a count) makes every other lane be truncated to that dtype
+    whenever such a lane comes first - the result for one lane then depends on another lane."""
+    flow = flow_of(one_d)
+    floats = set(one_d.positional_params[:1])
+    key = f"lane:{method}:kind"
+    rets = [s for s in body_walk(one_d.node) if isinstance(s, ast.Return) and s.value is not None]
+    kinds = [(r, _result_kind(flow, r.value, flow.cfg.node_for(r), floats)) for r in rets]
+    bad = [r for r, k in kinds if k in ("int", "mixed")]
+    if bad:
+        res.bad("R3", one_d, bad[0], f"{method}: {one_d.name} returns an integer-valued result (`{norm(bad[0].value)[:60]}`) on some path while it is applied "
+                "lane by lane with np.apply_along_axis, whose output buffer takes the dtype of the first lane's result: the other lanes are truncated "
+                "to integers whenever such a lane comes first", key=key)
+    else:
+        typed = sum(1 for _, k in kinds if k == "float")
+        res.ok("R3", one_d, one_d.node, f"{method}: {one_d.name} returns a float on {typed} of {len(kinds)} return path(s) (none is integer-valued)", key=key,
+               construct=one_d.name)
 
 
 def _lane_rule(prog: Program, res: Result, f: FuncInfo, method: str) -> None:
@@ -289,6 +425,7 @@ def _lane_rule(prog: Program, res: Result, f: FuncInfo, method: str) -> None:
                     res.bad("R3", f, pos[0], f"{f.name} indexes its input positionally (`{norm(pos[0])}`) before delegating", key=key)
                 else:
                     res.ok("R3", f, r, f"{method}: delegates to apply_along_axes({one_d}, data, axis): per-lane / flattened by construction", key=key)
+                    _lane_result_kind(prog, res, prog.func(S, one_d), method)
                 return
     # (b0) a whole-array (cross-lane) condition may only guard element-wise, mask-selected updates
     for g in [n for n in body_walk(f.node) if isinstance(n, ast.If)]:
@@ -355,6 +492,9 @@ def _positional_uses(f: FuncInfo, data: str) -> list[ast.AST]:
 
 SF = "sigpyproc/core/stats.py"
 MUTANTS = [
+    {"id": "c15-qn-constant-lane-int", "file": "sigpyproc/core/stats.py", "expect": "C15.R3",
+     "old": "    n = len(data)\n    h = n // 2 + 1\n    k = h * (h - 1) // 2\n    diffs = np.abs(data[:, None] - data)\n",
+     "new": "    n = len(data)\n    if data.min() == data.max():\n        return 0\n    h = n // 2 + 1\n    k = h * (h - 1) // 2\n    diffs = np.abs(data[:, None] - data)\n"},
     {"id": "c15-revert-F19", "file": SF, "expect": "C15.R3",
      "old": "    data = np.asanyarray(data, dtype=np.float64)\n    return apply_along_axes(_scale_sn_1d, data, axis)\n",
      "new": "    norm = 1.1926\n    data = np.asanyarray(data, dtype=np.float64)\n    diffs = np.abs(data[..., None] - data[..., None, :])\n    median_diffs = np.median(diffs, axis=-1)\n    return norm * np.median(median_diffs, axis=axis)\n"},
@@ -382,7 +522,11 @@ MUTANTS += [
     {"id": "c15-doublemad-right-from-left", "file": SF, "expect": "C15.R5",
      "old": "        np.nanmean(data_right, axis=axis, keepdims=True) / norm_aad,", "new": "        np.nanmean(data_left, axis=axis, keepdims=True) / norm_aad,"},
     {"id": "c15-doublemad-select-swapped", "file": SF, "expect": "C15.R5",
-     "old": "    return np.where(data < loc, mad_left, mad_right)", "new": "    return np.where(data < loc, mad_right, mad_left)"},
+     "old": "    return np.where(data < loc, mad_left, np.where(data > loc, mad_right, mad_both))", "new": "    return np.where(data < loc, mad_right, np.where(data > loc, mad_left, mad_both))"},
+    {"id": "c15-revert-F30", "file": "sigpyproc/core/stats.py", "expect": "C15.R5",
+     "old": "    return np.where(data < loc, mad_left, np.where(data > loc, mad_right, mad_both))", "new": "    return np.where(data < loc, mad_left, mad_right)"},
+    {"id": "c15-median-sample-left", "file": "sigpyproc/core/stats.py", "expect": "C15.R5",
+     "old": "    return np.where(data < loc, mad_left, np.where(data > loc, mad_right, mad_both))", "new": "    return np.where(data <= loc, mad_left, mad_right)"},
     {"id": "c15-mad-fallback-all-lanes", "file": SF, "expect": "C15.R3",
      "old": "    is_zero_mad = np.isclose(mad, 0)\n    if np.any(is_zero_mad):\n        aad = np.mean(np.abs(data - loc), axis=axis, keepdims=True) / norm_aad\n        mad = np.where(is_zero_mad, aad, mad)\n",
      "new": "    if np.all(np.isclose(mad, 0)):\n        mad = np.mean(np.abs(data - loc), axis=axis, keepdims=True) / norm_aad\n"},
@@ -390,6 +534,14 @@ MUTANTS += [
      "old": "        mad = np.where(is_zero_mad, aad, mad)\n", "new": "        mad = aad\n"},
 ]
 TWINS = [
+    {"id": "c15-twin-select-max-at-median", "file": "sigpyproc/core/stats.py",
+     "old": "    mad_both = 0.5 * (mad_left + mad_right)\n", "new": "    mad_both = (mad_right + mad_left) / 2\n"},
+    {"id": "c15-twin-select-order", "file": "sigpyproc/core/stats.py",
+     "old": "    return np.where(data < loc, mad_left, np.where(data > loc, mad_right, mad_both))",
+     "new": "    return np.where(data > loc, mad_right, np.where(data < loc, mad_left, mad_both))"},
+    {"id": "c15-twin-qn-constant-lane-float", "file": "sigpyproc/core/stats.py",
+     "old": "    n = len(data)\n    h = n // 2 + 1\n    k = h * (h - 1) // 2\n    diffs = np.abs(data[:, None] - data)\n",
+     "new": "    n = len(data)\n    if data.min() == data.max():\n        return 0.0\n    h = n // 2 + 1\n    k = h * (h - 1) // 2\n    diffs = np.abs(data[:, None] - data)\n"},
     {"id": "c15-twin-mad-unconditional-where", "file": SF,
      "old": "    if np.any(is_zero_mad):\n        aad = np.mean(np.abs(data - loc), axis=axis, keepdims=True) / norm_aad\n        mad = np.where(is_zero_mad, aad, mad)\n",
      "new": "    aad = np.mean(np.abs(data - loc), axis=axis, keepdims=True) / norm_aad\n    mad = np.where(is_zero_mad, aad, mad)\n"},
